@@ -15,17 +15,18 @@ let hh (b : byte list) : byte list =
   | Some v -> v
   | None -> let v = blake2b_256 b in Hashtbl.add memo k v; v
 
-let parse_step tok : step =
+let parse_step tok : xstep =
   let body = String.sub tok 1 (String.length tok - 1) in
   let f = String.split_on_char ':' body in
   let idx s = nat_of_int (int_of_string ("0x" ^ s)) in
   match tok.[0], f with
-  | 's', [i] -> Snap (idx i)
-  | 'p', [i; k; v] -> Put (idx i, bytes_of_hex k, bytes_of_hex v)
-  | 'd', [i; k] -> Del (idx i, bytes_of_hex k)
-  | 'c', [i; p] -> Clear (idx i, bytes_of_hex p)
-  | 'v', [i; v] -> SetVer (idx i, v = "1")
-  | 'w', [i] -> Commit (idx i)
+  | 's', [i] -> Core (Snap (idx i))
+  | 'p', [i; k; v] -> Core (Put (idx i, bytes_of_hex k, bytes_of_hex v))
+  | 'd', [i; k] -> Core (Del (idx i, bytes_of_hex k))
+  | 'c', [i; p] -> Core (Clear (idx i, bytes_of_hex p))
+  | 'l', [i; p; l] -> ClearLimit (idx i, bytes_of_hex p, n_of_hex l)
+  | 'v', [i; v] -> Core (SetVer (idx i, v = "1"))
+  | 'w', [i] -> Core (Commit (idx i))
   | _ -> fail "C03: bad step %s" tok
 
 let obs_string (hash : byte list) (ents : (byte list * byte list) list) : string =
@@ -51,9 +52,12 @@ let observe fg (st : state) : state * string list =
   ({ st with s_mem = !m }, obs)
 
 let kind_tag = function
-  | Snap _ -> "snapshot" | Put _ -> "put" | Del _ -> "delete" | Clear _ -> "clearprefix"
-  | SetVer (_, true) -> "setversion-v1" | SetVer (_, false) -> "setversion-v0"
-  | Commit _ -> "writedirty" | HashOp _ -> "hash"
+  | Core (Snap _) -> "snapshot" | Core (Put _) -> "put" | Core (Del _) -> "delete" | Core (Clear _) -> "clearprefix"
+  | Core (SetVer (_, true)) -> "setversion-v1" | Core (SetVer (_, false)) -> "setversion-v0"
+  | Core (Commit _) -> "writedirty" | Core (HashOp _) -> "hash"
+  | ClearLimit _ -> "clearprefixlimit"
+
+let core_steps steps = List.filter_map (function Core s -> Some s | ClearLimit (i, p, _) -> Some (Clear (i, p))) steps
 
 let check inp obs0 =
   (* the first field tells which pending Delete/Get repairs the tree under test contains *)
@@ -65,7 +69,7 @@ let check inp obs0 =
   let toks = split_ws inp in
   let toks = (match toks with "U" :: r -> r | l -> l) in
   let steps = List.map parse_step toks in
-  let frozen = frozen_parents steps in
+  let frozen = frozen_parents (core_steps steps) in
   (* ---- model run *)
   let render prev cur = (* "=" for unchanged handles *)
     List.mapi (fun j o -> match List.nth_opt prev j with Some p when p = o -> "=" | _ -> o) cur in
@@ -76,12 +80,15 @@ let check inp obs0 =
   let rec go st prev k = function
     | [] -> ()
     | s :: r ->
-      let (st1, res) = exec hh true fd st s in
+      let ((st1, res), extra) = xexec hh true fd st s in
       Buffer.add_char buf ' ';
       (match res with
        | ROk ->
          let st2, cur = observe fg st1 in
-         Buffer.add_string buf (String.concat "/" ("ok" :: render prev cur));
+         let rs = (match extra with
+           | Some (d, a) -> "ok:" ^ hex_of_n d ^ ":" ^ (if a then "1" else "0")
+           | None -> "ok") in
+         Buffer.add_string buf (String.concat "/" (rs :: render prev cur));
          go st2 cur (k + 1) r
        | RPanic -> model_panic_at := k; Buffer.add_string buf "panic"
        | RBad -> Buffer.add_string buf "bad")
@@ -114,7 +121,7 @@ let check inp obs0 =
             else begin
               let o = Array.of_list o in
               let nold = Array.length !cur in
-              let target = (match mutated_handle s with Some i -> int_of_nat i | None -> -1) in
+              let target = (match xmutated_handle s with Some i -> int_of_nat i | None -> -1) in
               if frozen then
                 Array.iteri (fun j x ->
                   if j < nold && j <> target && x <> "=" then
@@ -122,7 +129,7 @@ let check inp obs0 =
               (* expand *)
               let next = Array.mapi (fun j x -> if x = "=" && j < nold then (!cur).(j) else x) o in
               (match s with
-               | Snap i ->
+               | Core (Snap i) ->
                  let i = int_of_nat i in
                  if Array.length next <> nold + 1 then fail_with (Printf.sprintf "step %d: snapshot did not add a handle" k)
                  else if i < nold && next.(nold) <> next.(i) then
@@ -143,12 +150,12 @@ let check inp obs0 =
   end);
   let prop_ok = (!why = "") in
   let model_eq = (model = obs) in
-  let nsnap = List.length (List.filter (function Snap _ -> true | _ -> false) steps) in
+  let nsnap = List.length (List.filter (function Core (Snap _) -> true | _ -> false) steps) in
   let mut_after_snap =
     let rec f seen = function
       | [] -> false
-      | Snap _ :: r -> f true r
-      | s :: r -> (seen && mutated_handle s <> None) || f seen r in
+      | Core (Snap _) :: r -> f true r
+      | s :: r -> (seen && xmutated_handle s <> None) || f seen r in
     f false steps in
   let kinds = List.sort_uniq compare (List.map kind_tag steps) in
   let tags = String.concat "," (
